@@ -92,7 +92,7 @@ def build(ctx):
     ]
     return {
         'jobs': jobs, 'sliced': sliced, 'fired': fired,
-        'trusted': ['the aggregator runs handle_operations on one thread at a time', 'input queue, predecessor cache, create_body_task, spawn_forward_task: stubs (every accept/empty pattern)', 'item_type is trivially copyable'],
+        'trusted': ['the aggregator runs handle_operations on one thread at a time (proved for aggregator_generic under C13, job agg.execute)', 'input queue, predecessor cache, create_body_task, spawn_forward_task: stubs (every accept/empty pattern)', 'item_type is trivially copyable'],
         'drops': ['preview metainfo arguments', 'status atomics -> SET_STATUS (handler-only access)', 'aligned_space -> struct'],
         'not_decided': ['push/pull edge switching in successor/predecessor caches', 'rejection + re-offer protocols between nodes', 'wait_for_all quiescence', 'async_node gateways', 'topology quantifier',
                         'aggregator exclusivity itself'],
